@@ -643,11 +643,91 @@ func m3Publish(idx int64, r *rand.Rand) {
 	rt.Distinct(fmt.Sprintf("m3|%v", cfg))
 }
 
+// saturate acquires until the limiter refuses (at most cap attempts) and returns the tokens it was granted.
+func saturate(lim core.Limiter, cap int) []core.Listener {
+	var held []core.Listener
+	for i := 0; i < cap; i++ {
+		l, ok := lim.Acquire(someCtx(i))
+		if !ok || l == nil {
+			break
+		}
+		held = append(held, l)
+	}
+	return held
+}
+
+// m4Constructors: sequential gates whose limit comes from somewhere else than a sample: (a) the convenience constructor
+// (default Vegas limit, initial estimate 20) over a strategy built with a placeholder number - before any window has
+// closed exactly 20 tokens are granted; (b) a SettableLimit moved by explicit sets between windows - once a window has
+// closed after a set, exactly the new value is granted.
+func m4Constructors(idx int64, r *rand.Rand) {
+	stratKind := []string{"simple", "precise"}[r.IntN(2)]
+	mk := func(n int) core.Strategy {
+		if stratKind == "simple" {
+			return strategy.NewSimpleStrategy(n)
+		}
+		return strategy.NewPreciseStrategy(n)
+	}
+	arg := []int{1, 5, 20, 100, 1000}[r.IntN(5)]
+	dl, err := limiter.NewDefaultLimiterWithDefaults("c01", mk(arg), limit.NoopLimitLogger{}, core.EmptyMetricRegistryInstance)
+	if err != nil {
+		panic(err)
+	}
+	want := dl.EstimatedLimit()
+	held := saturate(dl, want+arg+50)
+	rt.Count("convenience_constructor_gates_checked", 1)
+	if len(held) != want {
+		rt.Violation("C01/limiter+"+stratKind+"/gate-built-by-the-convenience-constructor-grants-other-than-its-estimate", idx, rt.J{"strategy_constructor_argument": arg,
+			"estimate": want, "granted_before_any_window_closed": len(held)})
+		return
+	}
+	for _, l := range held {
+		l.OnIgnore()
+	}
+	// (b)
+	sl := limit.NewSettableLimit("c01", 1+r.IntN(8), nil)
+	dl2, err := limiter.NewDefaultLimiter(sl, 1, 1, 0, 10, mk(1+r.IntN(12)), limit.NoopLimitLogger{}, core.EmptyMetricRegistryInstance)
+	if err != nil {
+		panic(err)
+	}
+	var traj []int
+	for step := 0; step < 5; step++ {
+		v := 1 + r.IntN(12)
+		traj = append(traj, v)
+		sl.SetLimit(v)
+		// let a whole window go by: 40 sequential completions, each a few hundred nanoseconds long
+		for i := 0; i < 40; i++ {
+			l, ok := dl2.Acquire(someCtx(i))
+			if !ok {
+				rt.Violation("C01/limiter+"+stratKind+"/refused-while-capacity-was-free/after-an-explicit-set", idx, rt.J{"trajectory_of_explicit_sets": traj, "completions_since_the_set": i})
+				return
+			}
+			for k := 0; k < 50; k++ {
+				runtime.Gosched()
+			}
+			l.OnSuccess()
+		}
+		held := saturate(dl2, v+40)
+		rt.Count("explicit_set_gates_checked", 1)
+		if len(held) != v {
+			rt.Violation("C01/limiter+"+stratKind+"/gate-grants-other-than-the-limit-set-explicitly-before-the-last-window", idx, rt.J{"trajectory_of_explicit_sets": traj,
+				"estimate": dl2.EstimatedLimit(), "granted": len(held)})
+			return
+		}
+		for _, l := range held {
+			l.OnIgnore()
+		}
+	}
+	rt.Distinct(fmt.Sprintf("m4|%s|%d|%v", stratKind, arg, traj))
+}
+
 func TestCheck(t *testing.T) {
 	rt.Cases(1260, 63000, func(idx int64) {
 		r := rt.CaseRand(1, idx)
 		rt.Case()
 		switch m := idx % 21; {
+		case m == 6:
+			m4Constructors(idx, r)
 		case m == 13:
 			m3Publish(idx, r)
 		case m < 14:
